@@ -96,6 +96,8 @@ def tree_eq(a, b, ignore=IGNORE):
             return is_lazy(a) and is_lazy(b) and a['_lazy'] == b['_lazy']
         if a.get('_t') != b.get('_t') or a.get('_v') != b.get('_v'):
             return False
+        if b.get('_optchain_lowered') or a.get('_optchain_lowered'):
+            return True
         cs = []
         for k in a:
             if k in ignore or k in ('_t', '_v'):
@@ -239,6 +241,16 @@ def injected_seq(e):
     return assigns, exprs[-1]
 
 
+def is_optchain_guard(e):
+    if not isinstance(e, dict) or is_lazy(e) or kind(e) != 'Cond':
+        return False
+    c = payload(e)
+    if not span_is_dummy(c['span']):
+        return False
+    t = c['test']
+    return kind(t) == 'Bin' and isinstance(payload(t)['op']['_d'], int) and payload(t)['op']['_d'] == EQEQ and is_temp_ident(payload(t)['left']) and kind(payload(t)['right']) == 'Lit'
+
+
 def spread_materialisation(rhs):
     """`[...x]` with an injected (dummy-span) array -> x else None"""
     if kind(rhs) != 'Array':
@@ -345,6 +357,16 @@ class Eraser:
         if k == 'Ident' and is_temp_ident(e):
             return self.lookup(e)
         inj = injected_seq(e)
+        if inj is not None and is_optchain_guard(inj[1]):
+            # `(t = base, t == null ? undefined : rest)`: lowered optional chain.  Undoing it structurally is not attempted
+            # (behaviour is decided by C01); the hooks inside are still recorded.
+            assigns, last = inj
+            for name, rhs in assigns:
+                self.raw[name] = rhs
+                self.env[name] = self.erase(rhs)
+                self.spread[name] = False
+            self.erase(payload(last)['alt'])
+            return {'_t': 'Expr', '_v': 'OptChain', '_optchain_lowered': True}
         if inj is not None:
             assigns, last = inj
             for name, rhs in assigns:
@@ -1390,6 +1412,47 @@ def effectful_member_target(assign):
     return not (simple_obj and simple_prop)
 
 
+def nested_chain_off_spine(e):
+    """does the optional chain e contain another optional chain outside its own spine (obj / callee positions)?"""
+    def has_chain(v):
+        if isinstance(v, (list, tuple)):
+            return any(has_chain(x) for x in v)
+        if not isinstance(v, dict) or is_lazy(v):
+            return False
+        if v.get('_t') == 'Expr' and kind(v) == 'OptChain':
+            return True
+        return any(has_chain(x) for x in v.values())
+
+    cur = e
+    while isinstance(cur, dict) and not is_lazy(cur) and kind(cur) in ('OptChain', 'Member', 'Call'):
+        p = payload(cur)
+        if kind(cur) == 'OptChain':
+            base = p['base']
+            if is_lazy(base):
+                return False
+            b = base['_0']
+            if base.get('_v') == 'Member':
+                if has_chain(b['prop']):
+                    return True
+                cur = b['obj']
+            else:
+                if has_chain(b['args']):
+                    return True
+                cur = b['callee']
+        elif kind(cur) == 'Member':
+            if has_chain(p['prop']):
+                return True
+            cur = p['obj']
+        else:
+            if has_chain(p['args']):
+                return True
+            c = p['callee']
+            if is_lazy(c) or c.get('_v') != 'Expr':
+                return False
+            cur = c['_0']
+    return False
+
+
 def reflective_on_plain_path(call):
     c = call['callee']
     if is_lazy(c) or c.get('_v') != 'Expr' or kind(c['_0']) != 'Member':
@@ -1429,6 +1492,10 @@ def check_C01(in_view, out_view):
         for role, cond, detail in diffs:
             ctxkind = kind(a)
             r = 'behaviour/%s:%s' % (role, ctxkind)
+            if ctxkind == 'OptChain' and nested_chain_off_spine(a):
+                # the optional-chain lowering also lowers chains nested in arguments / computed keys of the instrumented chain,
+                # hoists them to the front and guards the WHOLE expression with the nested chain's null test
+                r = 'behaviour/optional-chain-nested-in-argument-or-key-of-instrumented-chain'
             if ctxkind == 'Call' and reflective_on_plain_path(payload(a)):
                 # `p.q.m.call(thisArg, ..)` (not a `.prototype.` path): the path is read after the this-argument / arguments
                 r = 'behaviour/call-apply-target-path-read-after-arguments'
